@@ -181,9 +181,12 @@ def table_config(rnd):
     for i, nm in enumerate(names):
         prec = rnd.choice(pool) if rnd.random() < 0.5 else min(10 ** 9, max(1, base + rnd.choice([-1, 0, 1])))
         assoc = rnd.choice(["LEFT", "RIGHT"])
-        for k2, v in m.tab.infix.items():
-            if v[0] == prec:
-                assoc = v[1]
+        if rnd.random() < 0.6:
+            # mostly one associativity per level; otherwise an operator may sit on an occupied level with the other associativity
+            # (programs that mix the two on one level are then left open, everything else must parse as before)
+            for k2, v in m.tab.infix.items():
+                if v[0] == prec:
+                    assoc = v[1]
         ty = "CALC" if rnd.random() < 0.8 else "SETTER"
         m.tab.infix[nm] = (prec, assoc, ty)
         steps.append({"op": "reg_infix", "name": nm, "prec": prec, "type": ty, "assoc": assoc, "beh": {"id": 300 + i, "ret": "tag"}})
@@ -301,6 +304,54 @@ def run_shard(desc):
                                            "replay": {"steps": steps}})
         part["classes"] = sorted(part["classes"])
         return part
+    if kind == "xthread":
+        # a registration made on one thread must be used by every later evaluation on EVERY thread, also on a long-lived thread that
+        # had already met the word as a plain name (or the built-in handler) before: logical clock, no timing
+        for h in range(n):
+            role = ["infix", "prefix", "postfix", "fn", "infix-override", "fn-override"][(h + si) % 6]
+            nm = {"infix-override": "+", "fn-override": "max"}.get(role, "xw%d%s" % (h, "y" * rnd.randint(0, 9)))
+            prog = {"infix": "6 %s 4", "prefix": "%s 4", "postfix": "4 %s", "fn": "%s(1)", "infix-override": "6 %s 4", "fn-override": "%s(1)"}[role] % nm
+            args = {"infix": ["6", "4"], "prefix": ["4"], "postfix": ["4"], "fn": ["1"], "infix-override": ["6", "4"], "fn-override": ["1"]}[role]
+            hid = 9100 + h
+            want = {"ok": ["l", [["n", str(hid), 0]] + [["n", a_, 0] for a_ in args]]}
+            if role.startswith("fn"):
+                reg = {"op": "reg_fn", "name": nm, "beh": {"id": hid, "ret": "tag"}}
+            elif role.startswith("infix"):
+                reg = {"op": "reg_infix", "name": nm, "prec": 110, "type": "CALC", "assoc": "LEFT", "beh": {"id": hid, "ret": "tag"}}
+            else:
+                reg = {"op": "reg_" + role, "name": nm, "beh": {"id": hid, "ret": "tag"}}
+            n_old = rnd.choice([1, 2, 3])
+            olds = [[{"op": "exec", "text": prog}, {"op": "parse", "text": prog}, {"op": "tick"}, {"op": "wait_tick", "n": n_old + 1}, {"op": "exec", "text": prog, "tag": "after"}, {"op": "parse", "text": "[%s]" % prog}, {"op": "exec", "text": prog, "tag": "after"}] for _ in range(n_old)]
+            registrar = [{"op": "wait_tick", "n": n_old}, reg, {"op": "tick"}]
+            fresh = [{"op": "wait_tick", "n": n_old + 1}, {"op": "exec", "text": prog, "tag": "after"}]
+            steps = [{"op": "exec", "text": "1 + 1"}, {"op": "threads", "plans": olds + [registrar, fresh]}, {"op": "exec", "text": prog, "tag": "after"}]
+            run = common.run_vexec(steps, wd, "xt-%d-%d" % (si, h), profile, timeout=120)
+            kind_, detail = common.crash_verdict(run, "cross-thread dispatch")
+            if kind_ is not None or not run.ended:
+                if kind_ in ("signal", "hang", "deadlock"):
+                    part["violations"].append({"sig": ["crash", kind_, "xthread"], "what": detail, "replay": {"steps": steps}})
+                else:
+                    part["inconclusive"].append("%s %s" % (kind_, detail))
+                continue
+            st = run.steps()
+            th = st[1].get("threads", [])
+            seen = [("main thread after the join", st[2])]
+            for ti, recs in enumerate(th):
+                if not isinstance(recs, list):
+                    part["violations"].append({"sig": ["thread-panicked", "xthread"], "what": "a thread panicked", "replay": {"steps": steps}})
+                    continue
+                for r in recs:
+                    if r.get("tag") == "after":
+                        seen.append(("thread %d (%s)" % (ti, "had evaluated the program before the registration" if ti < n_old else ("registrar" if ti == n_old else "first call after the registration")), r))
+            for who, r in seen:
+                part["evaluations"] += 1
+                part["counts"]["cross_thread_reads"] = part["counts"].get("cross_thread_reads", 0) + 1
+                if r.get("res") == want:
+                    part["classes"].add("xthread:%s:%s" % (role, who.split(" (")[-1][:20]))
+                else:
+                    part["violations"].append({"sig": ["registration-not-seen-on-other-thread", role, who.split(" (")[-1][:30]], "what": "register_%s(`%s`) returned on one thread; `%s` evaluated afterwards on %s gives %s instead of the registered handler's %s" % (role.split("-")[0], nm, prog, who, json.dumps(r.get("res")), json.dumps(want)), "replay": {"steps": steps}})
+        part["classes"] = sorted(part["classes"])
+        return part
     for h in range(n):
         if kind == "hist":
             steps, plan = history(rnd)
@@ -345,7 +396,12 @@ def run_shard(desc):
             todo = []
             for s in texts:
                 try:
-                    todo.append((s, ref.rparse(ref.rtok(s, tab), tab)))
+                    exp_ = ref.rparse(ref.rtok(s, tab), tab)
+                    ops_ = {x[1] for x in gen.subtrees(exp_) if x[0] == "bin" and x[1] in tab.infix}
+                    if any(tab.infix[a][0] == tab.infix[b][0] and tab.infix[a][1] != tab.infix[b][1] for a in ops_ for b in ops_):
+                        part["abstained"] += 1  # two associativities on one precedence level inside one program: left open
+                        continue
+                    todo.append((s, exp_))
                 except ref.Abstain:
                     part["abstained"] += 1
                 except (ref.ParseError, ref.LexError):
@@ -392,6 +448,7 @@ def run(rep, tier):
     shards += [("table", i, nt // 32, "release" if i % 2 else "verifdbg") for i in range(32)]
     shards += [("edgetable", i, 8, "release" if i % 2 else "verifdbg") for i in range(16)]  # 128 deterministic edge tables
     shards += [("racereg", i, 10 if tier == "quick" else 100, "release" if i % 2 else "verifdbg") for i in range(4)]
+    shards += [("xthread", i, 12 if tier == "quick" else 300, "release" if i % 2 else "verifdbg") for i in range(8)]
     for part in common.pmap(run_shard, shards):
         rep.merge(part)
     rep.floor = 5000
